@@ -7,7 +7,8 @@ use maybenot::{Framework, Machine, MachineId, TriggerAction};
 use crate::gen::{gen_event, gen_step, HCfg};
 use crate::util::{Pick, ScriptRng, VClock, VDur, Xo};
 
-pub type Fw<'a> = Framework<&'a [Machine], ScriptRng, VClock>;
+pub type FwR<'a, R> = Framework<&'a [Machine], R, VClock>;
+pub type Fw<'a> = FwR<'a, ScriptRng>;
 
 /// A returned action, flattened. kind: 0 cancel, 1 padding, 2 blocking, 3 timer.
 #[derive(Clone, Debug, PartialEq, Eq, Hash)]
@@ -96,7 +97,7 @@ pub fn shape_of(a: &Action) -> (u8, bool, bool, u8) {
     }
 }
 
-pub fn trigger(fw: &mut Fw<'_>, events: &[TriggerEvent], now: VClock) -> Vec<Act> {
+pub fn trigger<R: rand_core::RngCore>(fw: &mut FwR<'_, R>, events: &[TriggerEvent], now: VClock) -> Vec<Act> {
     fw.trigger_events(events, now).map(act_of).collect()
 }
 
